@@ -208,7 +208,7 @@ class SequenceGenerator:
 
         """
         self._busy_lock = threading.Lock()
-        if include_now:
+        if include_now is not None:
             self._sequence = int((include_now << 20) | random.randint(self.MIN_SEQUENCE, 0x000fffff)) & self.MAX_SEQUENCE
         else:
             self._sequence = random.randint(self.MIN_SEQUENCE, self.MAX_SEQUENCE)
